@@ -628,7 +628,10 @@ def build(ctx):
                 groups.append(Group(
                     name='handle/%s/%s/K=%d' % (fam, vname, k), sources={'family.cpp': src, 'helper.c': HELPER_C},
                     entry=entry, lang='cpp', unwind=k + 3, defines=['VERIF_K=%d' % k] + defs, min_obligations=10,
-                    functions=fns + gcfiles, canary='CANARY', canary_label='canary', strength='proof',
+                    functions=fns + gcfiles, canary_label='canary', strength='proof',
+                    # the must-fail canary doubles a group's cost: in the quick tier it is run for the groups that share
+                    # the state builder's reachability with all others (destroy, free_law, drain); thorough runs it everywhere
+                    canary='CANARY' if (ctx.tier != 'quick' or vname in ('step-destroy', 'free_law', 'drain')) else None,
                     bound='inductive step over K=%d handles, 2 backend objects (history length unbounded)' % k,
                     object_bits=10, timeout=2400, ignore=r'^verif_alive: \[pointer_primitives\]',
                     param='family=%s K=%d' % (fam, k),
